@@ -98,20 +98,29 @@ func (node HmmNode) ExportConfig() interface{} {
 }
 
 func (node *HmmNode) ImportConfig(v interface{}) bool {
+  if v == nil {
+    return false
+  }
   switch reflect.TypeOf(v).Kind() {
   case reflect.Slice:
     s := reflect.ValueOf(v)
+    isFloat := func(a interface{}) bool {
+      if a == nil {
+        return false
+      }
+      return reflect.TypeOf(a).Kind() == reflect.Float64
+    }
     if s.Len() == 2 &&
       // parse leaf
-      (reflect.TypeOf(s.Index(0).Elem().Interface()).Kind() == reflect.Float64) &&
-      (reflect.TypeOf(s.Index(1).Elem().Interface()).Kind() == reflect.Float64) {
-      node.States[0] = int(reflect.ValueOf(s.Index(0).Elem().Interface()).Float())
-      node.States[1] = int(reflect.ValueOf(s.Index(1).Elem().Interface()).Float())
+      isFloat(s.Index(0).Interface()) &&
+      isFloat(s.Index(1).Interface()) {
+      node.States[0] = int(reflect.ValueOf(s.Index(0).Interface()).Float())
+      node.States[1] = int(reflect.ValueOf(s.Index(1).Interface()).Float())
     } else {
       // parse internal node
       for i := 0; i < s.Len(); i++ {
         child := HmmNode{}
-        if ok := child.ImportConfig(s.Index(i).Elem().Interface()); !ok {
+        if ok := child.ImportConfig(s.Index(i).Interface()); !ok {
           return false
         }
         node.Children = append(node.Children, child)
